@@ -132,7 +132,7 @@ theorem enum_ok (E : Ext) (hU : E.U.AsciiCorrect) (cfg : Cfg) (targetOs : List S
   refine enum_clauses E hU .typescript (cfg, st) targetOs c r attrs ident gens vs e acronyms _ _ hparse
     (by simp [C01.enumKeys, ht]) ?_
   intro hs hk
-  exact C02.C02_backend .typescript E acronyms _ hs hk cfg st d st' hd
+  exact C02.C02_backend .typescript E hU acronyms _ hs hk cfg st d st' hd
 
 /-! ## finding the block of a source item -/
 
